@@ -630,6 +630,9 @@ def run_infer(case, drv, shared=None):
             return bad("ref!=spec", {"q": q, "ref": refs[q], "spec": [float(x) for x in specs[q]]}, key=key, tags=tags)
     if zero_evidence or any(v is None or has_nan(v) for v in refs.values()):
         return ok(nontrivial=False, key=key, tags=tags + ["zero-probability-evidence"])
+    if model == ("err", 5):
+        # the model's normalising constant is exactly zero: impossible evidence (reported as skipped)
+        return ok(nontrivial=False, key=key, tags=tags + ["zero-probability-evidence"])
     truth = {q: (specs[q] if q in specs else refs[q]) for q in refs}
 
     def impl_vals():
@@ -666,9 +669,15 @@ def run_infer(case, drv, shared=None):
                 return bad("crash", dict(detail, what="ValueError from _update_belief", model=str(model)[:80]),
                            finding=F_IFACE, key=key, tags=tags + ["err=4"])
             return bad("impl!=model", {"impl": str(impl)[:300], "model": str(model)[:300]}, key=key, tags=tags)
-        if model[0] != "ok":
+        if model[0] != "ok" and model != ("err", 6):
             return bad("impl!=model", {"impl": str(impl)[:300], "model": str(model)[:300]}, key=key, tags=tags)
         iv = impl_vals()
+        if model == ("err", 6):
+            # non-zero / zero in the as-coded backward pass (numpy inf/nan): no model value; judged by the unrolled network
+            if has_nan([x for v in iv.values() for x in v]) or not agrees(iv, truth):
+                return bad("impl!=unrolled", dict(detail, impl=str(iv), unrolled=str(truth)), finding=F_IFACE, key=key,
+                           tags=tags + ["wrong-marginal", "model-nonfinite-division"])
+            return ok(key=key, tags=tags + ["agree", "model-nonfinite-division"])
         if has_nan([x for v in iv.values() for x in v]):
             return ok(nontrivial=False, key=key, tags=tags + ["nan"])
         if not agrees(iv, model[1]):
@@ -826,6 +835,11 @@ def _constbn_parse(case, sname):
 def _constbn_check(case, bn, model, cpds, card, k, key, tags):
     """bn (pgmpy's constant network) against the model's and against the template; None = fine"""
     parse = lambda sname: _constbn_parse(case, sname)
+    try:
+        [parse(x) for x in bn.nodes()]
+    except (ValueError, AttributeError):
+        return bad("impl!=model", {"what": "constant network has nodes that are not template nodes",
+                                   "nodes": sorted(str(x) for x in bn.nodes())}, key=key, tags=tags)
     iedges = sorted([parse(u), parse(v)] for u, v in bn.edges())
     medges = sorted(model[1][0])
     if iedges != medges:
